@@ -2016,3 +2016,11 @@ PROPS["C17"]["rule"] += (" Symmetry of == is a C17 verdict: ops mapeqh / mapeq e
     "preserve_order, retain by key), retain-below, clear, or 1-3 extra keys (insert / extend / append), the other side optionally rebuilt in another "
     "insertion order - as histories (mapeqh: verdict from the reference association list, equal iff same key set and equal values) and as Values at top "
     "level and nested in [m], {k:m}, [1,{x:[null,m]}], {o:{a:1,m:m,z:true}} (mapeq: Spec.ValueEq.specEq); default and preserve_order.")
+PROPS["C02"]["rule"] += (" Tag tie:<place>:<kind>:<top|neg|nested> (c02::ties, float_roundtrip builds, op pv): C07's tie-neighbourhood literals as NUMBER members of "
+    "documents - for the midpoint above m x 2^e (exact decimal expansion by big-integer arithmetic): the expansion cut to 17, 18, 19, 20, 21, 22, 25, 30, 40, 80, "
+    "200, 400, 767, 768, 769 significant digits (just below the tie) and the cut plus one in its last digit (just above), the whole expansion and its successor, in "
+    "three spellings; at 2^-1075 (half the least subnormal: underflow), the two least subnormals, both sides of the least normal, the overflow threshold and its "
+    "predecessor (every cut), and at 60 (thorough 600) sampled doubles, a third of them subnormal / in the last binades (three cuts each); each literal at top level "
+    "and once more negative or nested in arrays / objects (seven shapes). Literals of more than 120 digits: the quick tier keeps the expansion, its successor and the "
+    "768-digit cuts at the two ends of the range, top level only (the driver's float_roundtrip model costs up to 0.7 s on such a case); thorough keeps all at the fixed "
+    "places and a tenth of the sampled ones. Verdict: the existing ones of pv (denotation; every number of the returned value against its literal, nearest-even).")
